@@ -225,6 +225,32 @@ func tail(s string, n int) string {
 	return s
 }
 
+var c02NamedConstants = []struct {
+	name string
+	f    roman.Format
+	rf   ref.RomanFlags
+}{
+	{"FormatLong4x", roman.FormatLong4x, ref.RomanFlags{Long4: true, Long40: true, Long400: true}},
+	{"FormatLong9x", roman.FormatLong9x, ref.RomanFlags{Long9: true, Long90: true, Long900: true}},
+	{"FormatLong", roman.FormatLong, ref.RomanFlags{Long4: true, Long40: true, Long400: true, Long9: true, Long90: true, Long900: true}},
+	{"FormatLong9x|FormatLowerCase", roman.FormatLong9x | roman.FormatLowerCase, ref.RomanFlags{Long9: true, Long90: true, Long900: true, Lower: true}},
+	{"FormatLong4x|FormatLong9", roman.FormatLong4x | roman.FormatLong9, ref.RomanFlags{Long4: true, Long40: true, Long400: true, Long9: true}},
+	{"FormatLong4", roman.FormatLong4, ref.RomanFlags{Long4: true}}, {"FormatLong40", roman.FormatLong40, ref.RomanFlags{Long40: true}}, {"FormatLong400", roman.FormatLong400, ref.RomanFlags{Long400: true}},
+	{"FormatLong9", roman.FormatLong9, ref.RomanFlags{Long9: true}}, {"FormatLong90", roman.FormatLong90, ref.RomanFlags{Long90: true}}, {"FormatLong900", roman.FormatLong900, ref.RomanFlags{Long900: true}},
+	{"FormatLowerCase", roman.FormatLowerCase, ref.RomanFlags{Lower: true}},
+}
+
+// c02Named formats n under every named format constant of the package.
+func c02Named(w *rt.W, n uint64) {
+	for _, nf := range c02NamedConstants {
+		out, err := roman.DefaultFormatter(nil, roman.Number(n), nf.f)
+		w.Eval(1)
+		if want := ref.RomanFormat(n, nf.rf); err != nil || string(out) != want {
+			w.Fail("format-named-constant", "named", rt.Args("n", n, "constant", nf.name, "format_value", int(nf.f)), string(out), want, "roman."+nf.name+" does not select the forms its documentation names")
+		}
+	}
+}
+
 func hasFourOrNine(n uint64) bool {
 	for r := n % 1000; r > 0; r /= 10 {
 		if d := r % 10; d == 4 || d == 9 {
@@ -235,6 +261,11 @@ func hasFourOrNine(n uint64) bool {
 }
 
 func init() {
+	replayers["C02/named"] = func(v rt.Violation) string {
+		c := rt.ReplayCtx("C02")
+		c.Serial("replay", func(w *rt.W) { c02Named(w, rt.ArgUint(v, "n")) })
+		return c.Report()
+	}
 	ns := []uint64{0, 1, 4, 9, 444, 1994, 3999, 4000, 127999}
 	coldCases["C02"] = coldGeneric([]func(){
 		func() { _, _ = roman.DefaultParser("", 0) },
@@ -356,28 +387,8 @@ func runC02(c *rt.Ctx) {
 
 	// the named composite constants, as a caller writes them (not assembled from single bits by the harness)
 	c.Parallel("named-format-constants", 0, func(w *rt.W) {
-		named := []struct {
-			name string
-			f    roman.Format
-			rf   ref.RomanFlags
-		}{
-			{"FormatLong4x", roman.FormatLong4x, ref.RomanFlags{Long4: true, Long40: true, Long400: true}},
-			{"FormatLong9x", roman.FormatLong9x, ref.RomanFlags{Long9: true, Long90: true, Long900: true}},
-			{"FormatLong", roman.FormatLong, ref.RomanFlags{Long4: true, Long40: true, Long400: true, Long9: true, Long90: true, Long900: true}},
-			{"FormatLong9x|FormatLowerCase", roman.FormatLong9x | roman.FormatLowerCase, ref.RomanFlags{Long9: true, Long90: true, Long900: true, Lower: true}},
-			{"FormatLong4x|FormatLong9", roman.FormatLong4x | roman.FormatLong9, ref.RomanFlags{Long4: true, Long40: true, Long400: true, Long9: true}},
-			{"FormatLong4", roman.FormatLong4, ref.RomanFlags{Long4: true}}, {"FormatLong40", roman.FormatLong40, ref.RomanFlags{Long40: true}}, {"FormatLong400", roman.FormatLong400, ref.RomanFlags{Long400: true}},
-			{"FormatLong9", roman.FormatLong9, ref.RomanFlags{Long9: true}}, {"FormatLong90", roman.FormatLong90, ref.RomanFlags{Long90: true}}, {"FormatLong900", roman.FormatLong900, ref.RomanFlags{Long900: true}},
-			{"FormatLowerCase", roman.FormatLowerCase, ref.RomanFlags{Lower: true}},
-		}
 		for n := uint64(w.Shard); n <= 4999; n += uint64(w.NShards) {
-			for _, nf := range named {
-				out, err := roman.DefaultFormatter(nil, roman.Number(n), nf.f)
-				w.Eval(1)
-				if want := ref.RomanFormat(n, nf.rf); err != nil || string(out) != want {
-					w.Fail("format-named-constant", "format-parse", rt.Args("n", n, "flags", int(nf.f), "format_value", int(nf.f), "path", "DefaultFormatter with roman."+nf.name), string(out), want, "roman."+nf.name+" does not select the forms its documentation names")
-				}
-			}
+			c02Named(w, n)
 			w.ClassN("named-format-constant-numbers", 1)
 		}
 	})
